@@ -1450,6 +1450,12 @@ func (vx *Vaxis) openTty(tgts []*os.File) error {
 	go func() {
 		defer func() {
 			if err := recover(); err != nil {
+				// Close waits for the parser to stop, which needs
+				// somebody to take what it still delivers
+				go func() {
+					for range parser.Next() {
+					}
+				}()
 				vx.Close()
 				panic(err)
 			}
@@ -1468,6 +1474,12 @@ func (vx *Vaxis) openTty(tgts []*os.File) error {
 				atomicStore(&vx.resize, true)
 				vx.PostEventBlocking(Redraw{})
 			case <-vx.chSigKill:
+				// Close waits for the parser to stop, which needs
+				// somebody to take what it still delivers
+				go func() {
+					for range parser.Next() {
+					}
+				}()
 				vx.Close()
 				return
 			}
